@@ -45,7 +45,22 @@ CLAIMED.update({
          "Trusted: /proc/self/maps and /proc/self/fd as observers. Every task owns a reference before it starts, so the count stays positive until the end as the statement requires.", "6 C20"),
 })
 
-PENDING = {k: 'claimed in DESIGN.md; its check is still under construction in this session and is not registered yet' for k in ['C16','C17','C18','C19']}
+CLAIMED.update({
+ "C16": ("exploration", "deterministic simulation (vectors build, stub engine): seeded open/search/close-handle/expiry-tick/segment-close histories, single task and interleaved tasks with yields in the cache's check-then-act windows; oracles: fresh twin opened from the same bytes, engine-side index accounting; race variant",
+         "Seeded histories over pairs of nested / overlapping / disjoint exclusion bitmaps, eviction and reload through an explicit expiry event, 2-4 interleaved searchers; every search equals the same search on a fresh twin; no native index is used after release or released twice, an index behind an open handle survives every expiry tick, none is alive after the segment is closed. Sampling, not proof.",
+         "Trusted: the pure-Go stub of go-faiss and its accounting; expiry through the verif hook (one cleanup pass = one monitor tick), the 1 s ticker is parked. Callers follow the API contract: filtered searches only on handles opened with requiresFiltering, eligible documents disjoint from the exclusion bitmap.", "6 C16"),
+ "C17": ("fault_enumeration", "fault injection in the real kernel and the io.Writer: per seeded input, write failures at enumerated byte offsets (RLIMIT_FSIZE torn write, failing writer) plus /dev/full, /dev/null (fsync fails), directory at path, missing parent; oracle: error => no file, success => complete file equal to the fault-free run; fault-free retry",
+         "For each seeded segment / merge scenario: every named offset class (0, 1, flush boundaries +-1 with the merge buffer shrunk to 16-256 bytes, footer first/middle/last byte, last byte) plus seeded offsets - every offset for outputs up to 400 bytes in the thorough tier - for WriteTo (2 writer failure modes), Persist and Merge, and the four path faults; error => nothing at the path and no descriptor leaked, success => footer, CRC, full content; then a fault-free retry must succeed.",
+         "Faults that a process can provoke without a simulated disk: EFBIG torn writes, ENOSPC, EINVAL on fsync, EISDIR, ENOENT. EIO on close and lost writes after a successful fsync are not injected. A writer returning n<len(p) with nil error is outside the io.Writer contract and not injected.", "6 C17"),
+ "C18": ("fault_enumeration", "cancellation injection: per seeded merge, the close channel is closed before the call, inside the k-th write callback / engine call for enumerated k, after return, and by a concurrent closer task under the seeded scheduler; oracle: closed error => no file, nil => complete file equal to the uncancelled run",
+         "A dry run counts the K write callbacks and engine calls of the merge; then every k (quick: a stratified sample when K is large) is cancelled once; nothing observable happens between two callbacks except isClosed polls, so these instants cover every distinguishable cancellation point of that input. A pre-closed channel must give the closed error and no file.",
+         "Which polling site observed the closed channel is not visible from outside; the evidence counts aborted vs finished-normally outcomes per batch instead.", "6 C18"),
+ "C19": ("fault_enumeration", "engine fault injection (vectors build, stub engine): per seeded build / merge scenario the n-th engine call is failed for every n of the fault-free call sequence; oracle: error, or else complete vector content; failed merge => no file; live-index count back to baseline; no double close",
+         "A dry run records the engine call sequence (IndexFactory, SetDirectMap, Train, AddWithIDs, WriteIndexIntoBuffer, ReadIndexFromBuffer, ReconstructBatch); every call is failed once (quick: up to 10 per scenario); scenarios include >= 1000-vector fields so that the clustered-index calls occur.",
+         "Trusted: the stub engine and its fault plan. Failures of FAISS that do not surface as an error return of the Go binding are out of scope.", "6 C19"),
+})
+
+PENDING = {k: 'claimed in DESIGN.md; its check is still under construction in this session and is not registered yet' for k in []}
 
 NOT_APPLICABLE = {
  "C01": "pure function of (batch, chunk mode, build tag): no schedule, fault, timer, I/O error or call history in the statement; deciding it needs an independent model of the index, i.e. input generation rather than simulation (DESIGN 2, 6)",
